@@ -265,8 +265,53 @@ def r8_call_convention(run, F):
            "the call instruction must be given the callee's calling convention: " + detail)
 
 
+def r9_builtin_types(run, F):
+    """Builtins are typed by the typer (analyze_builtin) and expanded after typing (builtin::resolve); nothing re-checks the
+    expansion, and the in-process verifier does not look inside constant aggregates.  A builtin that expands directly to a
+    typed literal must give it exactly the type the typer announced for that builtin (`line!()` is usize: 32 bits under
+    --wasm, so a literal typed u64 only shows there).  Compared: the ValueType constructed in the builtin's arm of
+    analyze_builtin with the `value_type` field of the literal built by the helper its arm of resolve() returns."""
+    ty = F.body("alpha::typer::analyze_builtin")
+    rs = F.body("alpha::builtin::resolve")
+    tm = [m for m in hirq.matches(ty["hir"]) if any(hirq.pat_key(alt).startswith("Builtin::") or "::Builtin::" in hirq.pat_key(alt) for a in m["arms"] for alt in hirq.pat_alts(a["pat"]))]
+    rm = [m for m in hirq.matches(rs["hir"]) if any("Builtin::" in hirq.pat_key(alt) for a in m["arms"] for alt in hirq.pat_alts(a["pat"]))]
+    run.require(tm and rm, "the matches over Builtin were not found in analyze_builtin / resolve")
+    announced = {}
+    for a in tm[-1]["arms"] if len(tm) == 1 else max(tm, key=lambda m: len(m["arms"]))["arms"]:
+        for alt in hirq.pat_alts(a["pat"]):
+            b = hirq.pat_key(alt).split("::")[-1]
+            vts = sorted(set(hirq.short(p).split("::")[-1] for p, n in hirq.constructs(a["body"]) if "ValueType::" in p))
+            announced[b] = vts
+    n = 0
+    for a in max(rm, key=lambda m: len(m["arms"]))["arms"]:
+        if "guard" in a:
+            continue
+        body = hirq.unwrap_trivial(a["body"])
+        if body.get("k") != "Call":
+            continue
+        callee = hirq.callee(body) or ""
+        if not callee.startswith("alpha::builtin::") or not F.has_body(callee):
+            continue
+        helper = F.body(callee)
+        lit_types = []
+        for p, node in hirq.constructs(helper["hir"]):
+            if node.get("k") == "Struct" and "Expression::" in p:
+                for f in node.get("fields", []):
+                    if f["name"] == "value_type":
+                        lit_types.append(str(hirq.unwrap_trivial(f["e"]).get("res", "?")).split("::")[-1])
+        if not lit_types:
+            continue
+        for alt in hirq.pat_alts(a["pat"]):
+            b = hirq.pat_key(alt).split("::")[-1]
+            n += 1
+            run.ob("R9-BUILTIN-TYPES", b, announced.get(b) == sorted(set(lit_types)), F.where(helper),
+                   "%s!() is announced as %s by the typer, %s expands it to a literal of type %s" % (b.lower(), announced.get(b), callee.split("::")[-1], lit_types))
+    run.floor("R9-BUILTIN-TYPES", 1, "builtins that expand to a typed literal (line!)")
+
+
 def check(run):
     F = run.facts("B")
+    r9_builtin_types(run, F)
     r1_reset(run, F)
     r2_linkage(run, F)
     r3_order(run, F)
